@@ -46,9 +46,22 @@ def run(ctx: Ctx) -> int:
         args = ["0"] * 3
         args[k] = "0.25"
         corpus.append("RY 0\nPAULI_CHANNEL_1(" + ",".join(args) + ") 0\nMY 0\nMX 0")
+    # a two-qubit channel with 15 DISTINCT weights across two Bell pairs, read out by stabiliser measurements in several orders:
+    # all four error bits survive the basis reduction and their signatures come in a different order each time
+    # (exercises the axis bookkeeping of the channel simplification on asymmetric 4-bit tables)
+    pc2 = ",".join(repr((k + 1) / 256) for k in range(15))
+    import itertools as _it
+    prods = ["X0*X1", "Z0*Z1", "X2*X3", "Z2*Z3"]
+    orders = list(_it.permutations(prods))
+    for o in [orders[i] for i in ([0, 7, 10, 17, 22] if ctx.quick else range(24))]:
+        corpus.append(f"H 0\nCX 0 1\nH 2\nCX 2 3\nPAULI_CHANNEL_2({pc2}) 1 2\nMPP " + " ".join(o))
+    corpus.append(f"H 0\nCX 0 1\nH 2\nCX 2 3\nPAULI_CHANNEL_2({pc2}) 2 1\nMX 0 1\nM 2 3")
+    pc1 = "0.0625, 0.125, 0.25"
+    corpus.append(f"H 0\nCX 0 1\nPAULI_CHANNEL_1({pc1}) 0 1\nMPP Y0*Y1 X0*X1")
+    corpus.append("H 0\nCX 0 1\nCX 1 2\nE(0.25) X0 Z1\nELSE_CORRELATED_ERROR(0.5) Y2\nELSE_CORRELATED_ERROR(0.125) Z0 X2\nMPP X0*X1*X2 Z1*Z2 Z0*Z1")
     cases = [(t, {"corpus": 1}, False) for t in corpus]
     for _ in range(20 if ctx.quick else 600):
-        cases.append(gen(rng, nq_max=3, max_meas=4, max_noise=3, annotated=False, max_instr=12))
+        cases.append(gen(rng, nq_max=(4 if rng.random() < 0.3 else 3), max_meas=4, max_noise=3, annotated=False, max_instr=12))
     stats = run_cases(ctx, cases, det=False, label="noise", model_max=(30 if ctx.quick else 200),
                       deadline=time.time() + (150 if ctx.quick else 1500))
     ctx.cov.update({"stats": stats})
